@@ -30,10 +30,22 @@ BD = 0.1
 
 # ------------------------------------------------------------------ scenarios
 
-def synth(pattern, partial):
+def R_(sc):
+    return sc.get("rate", RATE)
+
+
+def W_(sc):
+    return sc.get("win", WIN)
+
+
+def BD_(sc):
+    return W_(sc) / R_(sc)
+
+
+def synth(pattern, partial, win=WIN):
     out = []
     for k, on in enumerate(pattern):
-        n = WIN if (k < len(pattern) - 1 or not partial) else partial
+        n = win if (k < len(pattern) - 1 or not partial) else partial
         for i in range(n):
             out.append((1000 if i % 2 == 0 else -1000) if on else 0)
     return struct.pack("<%dh" % len(out), *out)
@@ -90,7 +102,8 @@ def run_real(sc, workdir):
     from auditok import workers as W
     from auditok.util import AudioReader
     os.makedirs(workdir, exist_ok=True)
-    data = synth(sc["pattern"], sc["partial"])
+    data = synth(sc["pattern"], sc["partial"], W_(sc))
+    RATE_, BD_s = R_(sc), BD_(sc)
     S = L.Sched(W)
     S.main_requested = False
     undo = L.install(S)
@@ -100,12 +113,12 @@ def run_real(sc, workdir):
     obs_objs, obs_info = [], []
     out = {"error": None}
     try:
-        reader = AudioReader(data, sampling_rate=RATE, sample_width=SW, channels=CH, block_dur=BD)
+        reader = AudioReader(data, sampling_rate=RATE_, sample_width=SW, channels=CH, block_dur=BD_s)
         proxy = L.ProxyReader(reader, S)
         sav = None
         rd = proxy
         if sc["saver"]:
-            sav = W.StreamSaverWorker(proxy, os.path.join(workdir, "stream.wav"), cache_size_sec=sc["cache_bytes"] / (RATE * SW * CH))
+            sav = W.StreamSaverWorker(proxy, os.path.join(workdir, "stream.wav"), cache_size_sec=sc["cache_bytes"] / (RATE_ * SW * CH))
             S.add_role("sav", sav, sav._inbox)
             rd = sav
 
@@ -127,7 +140,7 @@ def run_real(sc, workdir):
                 os.makedirs(os.path.join(workdir, "reg%d" % j), exist_ok=True)
                 o = W.RegionSaverWorker(os.path.join(workdir, "reg%d" % j, sc.get("template", "det_{id}_{start:.3f}_{end:.3f}_{duration:.3f}.wav")), "wav")
             else:
-                o = W.AudioEventsJoinerWorker(sc["silence"], os.path.join(workdir, "join%d.wav" % j), None, RATE, SW, CH)
+                o = W.AudioEventsJoinerWorker(sc["silence"], os.path.join(workdir, "join%d.wav" % j), None, RATE_, SW, CH)
             S.add_role("obs%d" % j, o, o._inbox)
             obs_objs.append(o)
         tok = W.TokenizerWorker(rd, obs_objs, min_dur=sc["min_dur"], max_dur=sc["max_dur"], max_silence=sc["max_silence"],
@@ -171,7 +184,7 @@ def run_real(sc, workdir):
 
         rnd = random.Random(sc["seed"])
         workers_roles = [x for x in S.go if x != "main"]
-        budget = 400 + 60 * (len(sc["pattern"]) + 2) * (len(sc["observers"]) + 3)
+        budget = (400 + 60 * (len(sc["pattern"]) + 2) * (len(sc["observers"]) + 3)) * sc.get("budget_factor", 1)
         idle_streak = 0
         while len(S.done) < len(S.go):
             el = S.eligible()
@@ -301,9 +314,9 @@ def read_wav(path):
 def expected_regions(sc, data):
     """what split() returns for the audio that was read (the real split(), as the statement says)"""
     import auditok
-    regs = list(auditok.split(data, sampling_rate=RATE, sample_width=SW, channels=CH, min_dur=sc["min_dur"], max_dur=sc["max_dur"],
+    regs = list(auditok.split(data, sampling_rate=R_(sc), sample_width=SW, channels=CH, min_dur=sc["min_dur"], max_dur=sc["max_dur"],
                               max_silence=sc["max_silence"], strict_min_dur=sc["strict"], drop_trailing_silence=sc["drop"],
-                              analysis_window=BD, energy_threshold=50))
+                              analysis_window=BD_(sc), energy_threshold=50))
     return [(k + 1, x.meta.start, x.meta.end, bytes(x.data), x.duration) for k, x in enumerate(regs)]
 
 
@@ -354,7 +367,7 @@ def check_statement(sc, ob):
                 v.setdefault(pk, "observer %d processed %r, expected exactly the detections %r" % (
                     j, [(g[0], g[1], g[2]) for g in got], [(e[0], e[1], e[2]) for e in exp]))
             for g in o["got"]:
-                if (g[4], g[5], g[6]) != (RATE, SW, CH):
+                if (g[4], g[5], g[6]) != (R_(sc), SW, CH):
                     v.setdefault(pk, "observer %d got a region with parameters %r" % (j, g[4:]))
         elif o["kind"] == "regsave":
             want = {}
@@ -364,17 +377,17 @@ def check_statement(sc, ob):
             if got != want:
                 v.setdefault("C13", "region saver (observer %d) wrote files %r, expected %r" % (j, sorted(got), sorted(want)))
             for k, x in o["files"].items():
-                if "error" not in x and (x["rate"], x["sw"], x["ch"]) != (RATE, SW, CH):
+                if "error" not in x and (x["rate"], x["sw"], x["ch"]) != (R_(sc), SW, CH):
                     v.setdefault("C13", "region file %s has parameters %r" % (k, (x["rate"], x["sw"], x["ch"])))
         elif o["kind"] == "joiner":
-            sil = b"\0" * (round(sc["silence"] * RATE) * SW * CH)
+            sil = b"\0" * (round(sc["silence"] * R_(sc)) * SW * CH)
             want = sil.join(e[3] for e in exp)
             f = o["file"]
             if "error" in f:
                 v.setdefault("C13", "joiner file (observer %d) unreadable: %s" % (j, f["error"]))
-            elif f["frames"] != want or (f["rate"], f["sw"], f["ch"]) != (RATE, SW, CH):
+            elif f["frames"] != want or (f["rate"], f["sw"], f["ch"]) != (R_(sc), SW, CH):
                 v.setdefault("C13", "joiner file (observer %d) holds %d bytes, expected %d events joined by %d zero samples = %d bytes%s" % (
-                    j, len(f["frames"]), len(exp), round(sc["silence"] * RATE), len(want), "" if f["frames"] != want else " (header differs)"))
+                    j, len(f["frames"]), len(exp), round(sc["silence"] * R_(sc)), len(want), "" if f["frames"] != want else " (header differs)"))
     if nprint:
         want_lines = []
         for (i, st, en, d, du) in exp:
@@ -391,8 +404,8 @@ def check_statement(sc, ob):
         elif f["frames"] != consumed:
             v.setdefault("C14" if stopped else "C13", "saved stream holds %d bytes, the tokenizer read %d bytes (%s)" % (
                 len(f["frames"]), len(consumed), "prefix" if consumed.startswith(f["frames"]) else "content differs"))
-        elif (f["rate"], f["sw"], f["ch"]) != (RATE, SW, CH):
-            v.setdefault("C13", "saved stream has parameters %r, source has %r" % ((f["rate"], f["sw"], f["ch"]), (RATE, SW, CH)))
+        elif (f["rate"], f["sw"], f["ch"]) != (R_(sc), SW, CH):
+            v.setdefault("C13", "saved stream has parameters %r, source has %r" % ((f["rate"], f["sw"], f["ch"]), (R_(sc), SW, CH)))
     return v
 
 
@@ -402,7 +415,7 @@ def model_case(sc, ob, mparams):
     mn, mx, ms = mparams
     mode = (2 if sc["strict"] else 0) + (4 if sc["drop"] else 0)
     nb = len(sc["pattern"])
-    bszs = [WIN * SW * CH] * nb
+    bszs = [W_(sc) * SW * CH] * nb
     if sc["partial"] and nb:
         bszs[-1] = sc["partial"] * SW * CH
     ev = [e for e in ob["events"]]
@@ -434,7 +447,7 @@ def compare_with_model(sc, ob, res):
 
     def tok_bytes(s, e):
         return b"".join(blocks[s:e + 1])
-    real = [(d[0], round(d[1] * RATE / WIN), ) for d in ob["detections"]]
+    real = [(d[0], round(d[1] * R_(sc) / W_(sc)), ) for d in ob["detections"]]
     if [(d[0], d[1]) for d in dets] != real:
         return "detections: model %r, real (id, start window) %r" % (dets, real)
     for j, (o, m) in enumerate(zip(ob["observers"], obs)):
@@ -573,6 +586,27 @@ def run(prop, tier):
             sc["saver"] = True
             sc["weights"]["sav"] = r.choice([0.005, 0.3, 1.0, 30.0])
         scen.append(sc)
+    # ---- beyond small sizes: thousands of pending messages, thousands of timeouts, flushes of thousands of blocks, megabytes of events
+    def big(pattern, mn, mx, ms, observers, saver, cache_bytes, style, timeout_w, rate=RATE, win=WIN, silence=0.05, weights=None):
+        sc = gen_scenario(r, "natural", quick)
+        bd = win / rate
+        sc.update({"pattern": pattern, "partial": 0, "min_dur": mn * bd, "max_dur": mx * bd, "max_silence": ms * bd, "strict": False, "drop": False,
+                   "observers": observers, "saver": saver, "cache_bytes": cache_bytes, "style": style, "timeout_w": timeout_w, "rate": rate, "win": win,
+                   "silence": silence, "template": "det_{id}_{start:.3f}_{end:.3f}_{duration:.3f}.wav"})
+        roles = ["tok", "main"] + ["obs%d" % j for j in range(len(observers))] + (["sav"] if saver else [])
+        sc["weights"] = {ro: 1.0 for ro in roles}
+        sc["weights"].update(weights or {})
+        sc["budget_factor"] = 40
+        return sc
+    if prop == "C12":
+        # 1300 detections piling up in the inbox of an observer that only starts consuming when the stream is over
+        scen.append(big([1, 0] * 1300, 1, 5, 0, ["rec", "rec"], False, 0, "tokfirst", 0.02, weights={"tok": 1e4}))
+        # an observer that times out more than three thousand times (not in a row) while detections keep arriving
+        scen.append(big(([0] * 3 + [1, 1]) * 40, 1, 5, 0, ["rec"], False, 0, "toklast", 9.0))
+    if prop == "C13":
+        # a writer flush of exactly 4096 (and 8192) cached blocks; more than a mebibyte of joined events
+        scen.append(big([1, 0, 0, 1] * 2100, 1, 5, 1, [], True, 4096 * WIN * SW * CH, "uniform", 0.02))
+        scen.append(big(([1] * 30 + [0] * 10) * 14, 2, 40, 3, ["joiner", "regsave"], False, 0, "uniform", 0.05, rate=16000, win=1600, silence=0.5))
     if prop == "C12":
         for _ in range(80 if quick else 900):
             sc = gen_scenario(r, "natural", quick)
@@ -609,10 +643,10 @@ def run(prop, tier):
     # model parameters (window counts) from the model's own split-parameter derivation
     pcases, pkeys = [], {}
     for sc in scen:
-        key = (sc["min_dur"], sc["max_dur"], sc["max_silence"])
+        key = (sc["min_dur"], sc["max_dur"], sc["max_silence"], W_(sc), R_(sc))
         if key not in pkeys:
             pkeys[key] = len(pcases)
-            pcases.append((42, [C.fhex_me(key[0]), C.fhex_me(key[1]), C.fhex_me(key[2]), WIN, RATE]))
+            pcases.append((42, [C.fhex_me(key[0]), C.fhex_me(key[1]), C.fhex_me(key[2]), key[3], key[4]]))
     pres = C.model_eval(pcases)
     violations, mismatches = {}, []
     samples = []
@@ -661,7 +695,7 @@ def run(prop, tier):
         if sc.get("user_stop") is not None:
             hist["user_stopped_observer"] = hist.get("user_stopped_observer", 0) + 1
             continue            # an action outside the model's alphabet: judged by the statement only
-        mp_ = pres[pkeys[(sc["min_dur"], sc["max_dur"], sc["max_silence"])]]
+        mp_ = pres[pkeys[(sc["min_dur"], sc["max_dur"], sc["max_silence"], W_(sc), R_(sc))]]
         if mp_[0] != 0:
             mismatches.append({"scenario": sc, "what": "model rejects the split parameters %r" % (mp_,)})
             continue
